@@ -1,6 +1,6 @@
 (* C03 — managed attributes always satisfy their declared type on every
    mutation route.  Model: coq/Inst/Model.v (owned by the instance model);
-   proofs: coq/Inst/TypeProofs.v.
+   proofs: coq/Inst/TypeProofs.v, TypeCopy.v, Own*.v.
 
    Conformance is the model's executable `check_type FUEL` (its agreement with
    a declarative relation is C15's business).  `check_type` recurses on the
@@ -30,9 +30,17 @@
      annotation (C03_*_insert_preserves_TypeInv); element removal preserves it
      under every view (C03_remove_preserves_TypeInv); the single instance write
      preserves it when the stored value conforms (C03_store_preserves_TypeInv).
-   Missing for the full statement: the ownership invariant that discharges
-   `only_view` along whole operations (which cells a call may store where);
-   see docs/C03.md. *)
+   * with the ownership invariant `Owned` (sections 6-9 below, coq/Inst/Own*.v):
+     C03_step_preserves_owned_partial, the statement with TypeInv /\ Owned as
+     the invariant for the operations selected by the computable predicate
+     owned_opg_b — constructor, assignment, del, with_/update_/transform_/reset_
+     helpers, the element helpers of the three collection families, reset(),
+     deepcopy; in place and copy-on-write — on leaf attributes (scalar, or
+     List/Set/Dict of scalars; preparers quiet callbacks) of flat classes in
+     tables without invalidated_by.
+   Missing for the full statement: nested spec classes / Any as elements,
+   invalidated_by, do_not_copy, inheritance, keyword attributes and attribute
+   transforms, top-level update / transform; see docs/C03.md. *)
 From Coq Require Import List ZArith Bool Arith.
 From SC Require Import Base.Res Base.PyList Inst.Heap Inst.ClassTable Inst.Model Inst.TypeProofs Inst.TypeCopy
   Inst.OwnProofs Inst.OwnProofs2 Inst.OwnProofs3 Inst.OwnColl Inst.OwnCopy Inst.OwnCow Inst.OwnInit Inst.OwnMore Inst.OwnAll.
